@@ -268,9 +268,13 @@ func (q *quorumAckTracker) Close() error {
 	q.Lock()
 	q.closed = true
 	q.waitForHeadOffset.Broadcast()
+	// Take the waiting requests out under the lock: an ack that arrives now must not complete some of
+	// them (and have them applied) while the others are being failed here
+	waitingRequests := q.waitingRequests
+	q.waitingRequests = nil
 	q.Unlock()
 	// unblock waiting request
-	for _, r := range q.waitingRequests {
+	for _, r := range waitingRequests {
 		r.callback.OnCompleteError(constant.ErrAlreadyClosed)
 	}
 	return nil
@@ -306,6 +310,11 @@ func (q *quorumAckTracker) NewCursorAcker(ackOffset int64) (CursorAcker, error) 
 func (c *cursorAcker) Ack(offset int64) {
 	c.quorumTracker.Lock()
 	defer c.quorumTracker.Unlock()
+
+	if c.quorumTracker.closed {
+		// The leader was fenced: acks of the old term do not commit anything any more
+		return
+	}
 
 	c.ack(offset)
 }
